@@ -12,6 +12,8 @@ import (
 	"time"
 
 	"github.com/skycoin/skycoin/src/api"
+	"github.com/skycoin/skycoin/src/cipher/bip44"
+	"github.com/skycoin/skycoin/src/cipher/crypto"
 	"github.com/skycoin/skycoin/src/wallet"
 
 	"verifsim/sim"
@@ -263,6 +265,46 @@ func runAPIConcurrent(c *sim.Ctx) {
 			}
 		}
 		c.Count("probe.concurrent_sessions_completed")
+		if c.Property == "C19c" && !c.Failed() {
+			// second phase of C19: after requests that overlapped at the wallet service's lock, what the service holds in
+			// memory must be what a service started afresh on the same directory loads
+			wallet.VerifLockYield = nil // the controller itself now goes through the service lock
+			bc := bip44.CoinTypeSkycoin
+			fresh, err := wallet.NewService(wallet.Config{WalletDir: c.Dir + "/wallets", CryptoType: crypto.CryptoTypeSha256Xor, EnableWalletAPI: true, EnableSeedAPI: true, Bip44Coin: &bc})
+			if err != nil {
+				c.Violate("fresh-service-fails", "after-concurrent-requests", "after %d concurrent clients a wallet service cannot be started on the wallet directory: %v", nClients, err)
+			} else {
+				mem, _ := a.wallets.GetWallets()
+				disk, _ := fresh.GetWallets()
+				var mnames []string
+				for name := range mem {
+					mnames = append(mnames, name)
+				}
+				sort.Strings(mnames)
+				for _, name := range mnames {
+					mw := mem[name]
+					if mw.IsTemp() {
+						continue
+					}
+					dw, ok := disk[name]
+					if !ok {
+						c.Violate("memory-differs-from-disk", "concurrent:missing-on-disk", "after concurrent requests wallet %s is loaded in memory but a fresh service does not find it", name)
+						break
+					}
+					mb, _ := mw.Serialize()
+					db, _ := dw.Serialize()
+					if string(mb) != string(db) {
+						what := "content"
+						if mw.IsEncrypted() != dw.IsEncrypted() {
+							what = "encrypted-flag"
+						}
+						c.Violate("memory-differs-from-disk", "concurrent:"+what, "after concurrent requests (all answered) wallet %s in memory differs from what a fresh service loads (%s; in memory encrypted=%v, on disk encrypted=%v)", name, what, mw.IsEncrypted(), dw.IsEncrypted())
+						break
+					}
+				}
+				c.Count("probe.memory_compared_with_fresh_service_after_concurrent_requests")
+			}
+		}
 	}
 	if c.Failed() && c.Bail != nil {
 		c.Bail() // blocked request goroutines never finish
